@@ -16,6 +16,8 @@ use autd3::prelude::*;
 #[derive(Clone)]
 pub enum Step {
     Send(Spec),
+    /// a tuple datagram `(a, b)` (both operations share frames)
+    Pair(Spec, Spec),
     Clk(u64), // relative advance in ns
 }
 
@@ -79,6 +81,7 @@ impl Silent {
         let w = &mut self.w;
         let r = guarded(|| match st {
             Step::Send(s) => w.send_spec(s, usize::MAX).result,
+            Step::Pair(x, y) => w.send_pair_spec(x, y, usize::MAX).result,
             Step::Clk(d) => {
                 let t = w.t + d;
                 w.clk(t);
@@ -114,6 +117,9 @@ pub fn run_case(out: &mut Out, ndev: usize, history: &[Step], probe: &Spec, tag:
             Step::Send(s) => {
                 a.send(s);
             }
+            Step::Pair(x, y) => {
+                a.pair(x, y);
+            }
             Step::Clk(d) => {
                 let t = a.w.t + d;
                 a.clk(t);
@@ -121,7 +127,7 @@ pub fn run_case(out: &mut Out, ndev: usize, history: &[Step], probe: &Spec, tag:
         }
         b.apply(st);
     }
-    let hist_desc: Vec<String> = history.iter().map(|s| match s { Step::Send(x) => x.kind().to_string(), Step::Clk(d) => format!("clk{d}") }).collect();
+    let hist_desc: Vec<String> = history.iter().map(|s| match s { Step::Send(x) => x.kind().to_string(), Step::Pair(x, y) => format!("({},{})", x.text(), y.text()), Step::Clk(d) => format!("clk{d}") }).collect();
     let key = format!("C02:{}:after[{}]", probe.text(), hist_desc.join(","));
     if a.dead || b.dead {
         // a firmware-model abort is C19's subject; here the case simply cannot be evaluated
@@ -358,6 +364,40 @@ pub fn run(args: &Args) {
             }
         }
     }
+    // ---- tuple datagrams in the history: a flag/configuration datagram travelling in the second slot must be in force
+    // when its send returns, not when some later, unrelated datagram arrives (every probe of the alphabet follows)
+    let tuples: Vec<(Spec, Spec)> = vec![
+        (Spec::SilRate(300, 7), Spec::Fan(true)),
+        (Spec::Pwe(3), Spec::GpioIn(0b1010)),
+        (Spec::Mod { seg: 1, tr: None, rep: 0xFFFF, div: 10, n: 2, seed: 31 }, Spec::Fan(true)),
+        (Spec::Fan(true), Spec::Reads(true)),
+        (Spec::Gain { seg: 1, tr: None, seed: 32 }, Spec::GpioIn(0b0011)),
+        (Spec::Mod { seg: 0, tr: None, rep: 0xFFFF, div: 10, n: 700, seed: 33 }, Spec::SilSteps(4, 9, false)),
+        (Spec::CpuGpio(0x11), Spec::Debug([0x21u64 << 56 | 3, 0, 0, 0x10u64 << 56])),
+    ];
+    for (k, (x, y)) in tuples.iter().enumerate() {
+        for (j, p) in alpha.iter().enumerate() {
+            if thorough || (j + k) % 2 == 0 {
+                run_case(&mut out, 1, &[Step::Pair(x.clone(), y.clone())], p, "tuple");
+            }
+        }
+    }
+    // ---- every page of the STM memory: a FociSTM of maximal length for each N (its frames end on different foci
+    // counts for each N, so every way a frame can meet a 4096-foci page boundary occurs) written over a segment
+    // whose every page holds another STM's data; a shorter one in thorough mode
+    for n in 1..=8usize {
+        for seg in if thorough { vec![0u8, 1] } else { vec![(n % 2) as u8] } {
+            let fill = Spec::Foci { n: 1, seg, tr: None, rep: 0xFFFF, div: 300, ss: 21760, size: 65536, seed: 40 + n as u64 };
+            let mut sizes = vec![65536 / n];
+            if thorough {
+                sizes.push(65536 / n - 1 - (n * 37) % 900);
+            }
+            for size in sizes {
+                let probe = Spec::Foci { n, seg, tr: None, rep: 0xFFFF, div: 100, ss: 21760, size, seed: 50 + n as u64 };
+                run_case(&mut out, 1, &[Step::Send(fill.clone())], &probe, "pages");
+            }
+        }
+    }
     // ---- random deeper histories with clock advances, 1..3 devices
     let nrand = if thorough { 400 } else { 60 };
     for _ in 0..nrand {
@@ -366,6 +406,9 @@ pub fn run(args: &Args) {
         for _ in 0..depth {
             if rng.chance(1, 4) {
                 hist.push(Step::Clk(*rng.pick(&[0u64, 1_000, 250_000, 1_000_000, 100_000_000])));
+            } else if rng.chance(1, 8) {
+                let (x, y) = rng.pick(&tuples).clone();
+                hist.push(Step::Pair(x, y));
             } else {
                 hist.push(Step::Send(rng.pick(&alpha).clone()));
             }
